@@ -3,7 +3,7 @@ import collections
 
 from .. import obs as O
 from .. import sgr_model as M
-from .common import (Contract, ansi_values, history, run_cases, tier_sizes, safe_obs, norm_range, settings_texts,
+from .common import (trie_case, TRIE_CODES, Contract, ansi_values, history, run_cases, tier_sizes, safe_obs, norm_range, settings_texts,
                      GROUP_CODES, small_scope_values, small_scope_on, ss_specs)
 from ..gen import gen_range, gen_settings
 
@@ -216,6 +216,30 @@ def drive(ctx, mon, tier, only_case=None):
                         t = L.AnsiString(v)
                     t.apply_formatting(c, a, b, topmost=top)
             ctx.extra['n_small_scope_values'] = nv
+            return
+        if case == 1:
+            # every history of apply/remove operations up to the tier's depth: each apply is judged where it happens
+            # ... and on values *derived* from the nodes (slices, re-joined halves, a copy of the other class), where
+            # whatever the library remembers about a value besides its markers has to have been carried along
+            def derived(v, p):
+                if len(p) >= 3 and tier == 'quick':
+                    # quick tier: of the three-operation histories only those that end by taking away what an earlier
+                    # operation had laid underneath (what remains is a setting stopped and restarted at one index)
+                    last = p[-1]
+                    if last[0] != 'remove' or not any(o[0] == 'apply' and o[4] is False and last[1] in (None, o[1])
+                                                      for o in p[:-1]):
+                        return
+                with mon.quiet():
+                    ds = [v[0:3], v[:1] + v[1:], L.AnsiString(L.AnsiStr(v)[0:3])]
+                    if tier != 'quick' or len(p) < 3:
+                        ds += [v[1:], L.AnsiString.join(v[:2], v[2:]), v.strip('x')]
+                for i, d in enumerate(ds):
+                    c = TRIE_CODES[(len(p) + i) % 3]
+                    d.apply_formatting(c, 0, None)
+                    with mon.quiet():
+                        d2 = ds[i][0:len(ds[i].base_str)]
+                    d2.apply_formatting(TRIE_CODES[(len(p) + i + 1) % 3], 0, 2, topmost=False)
+            trie_case(ctx, mon, tier, 3, 4, judged_walk=True, visit=derived, visit_depth=3)
             return
         profile = rng.choice(['wf', 'wf', 'mixed', 'hostile'])
         history(L, rng, ex, rng.randint(1, sz['nops']), sz['maxlen'], profile, WEIGHTS)
